@@ -4,7 +4,7 @@ CONSTANTS
   AllSchedules = FALSE
   PermuteModules = FALSE
   Trees = {"flat", "nested", "three", "empty", "dotted", "samename"}
-  BackSets = {"none", "pro", "epi", "both", "two", "mixed", "split", "badpro", "comment", "other"}
+  BackSets = {"none", "pro", "epi", "both", "two", "mixed", "split", "badpro", "comment", "twopro", "other"}
   Collisions = {"none", "duptype", "typeenum", "externdef", "uservft", "uservft1"}
   Ptrs = {4, 8}
   InDirs = {"plain", "dot", "trailing", "script"}
